@@ -117,15 +117,7 @@ d3_time["hours"] = d3_time["hour"].range
 
 
 def d3_time_day_offset(date, offset):
-    nday = date.day + offset
-    ndaysthismonth = daysThisMonth(date)
-    ndate = deepcopy(date)
-    while nday > ndaysthismonth:
-        ndate = d3_time_month_offset(date, 1)
-        nday -= ndaysthismonth
-        ndaysthismonth = daysThisMonth(ndate)
-    ndate = ndate.replace(day=nday)
-    return ndate
+    return date + timedelta(days=offset)
 
 
 def day_of_year(date):
